@@ -16,7 +16,7 @@ from vlib import sqlo
 
 PROP = 'C03'
 META = {
-    'extractors': ['expr', 'pyexpr'],
+    'extractors': ['expr', 'pyexpr', 'pysel'],
     'technique': ('Lean 4 proof (structural induction over expression trees; fuel-based precedence-climbing reference '
                   'parser parametric in all binding powers) + operator tables extracted from sqlbuilder.py + '
                   'differential correspondence on token streams and SQLite three-valued results; TRANSLATOR tie: the bodies '
